@@ -44,6 +44,9 @@ OFF = {22: ("bold", "dim"), 23: ("italic",), 24: ("underline", "underline2"), 25
        26: (), 27: ("reverse",), 28: ("conceal",), 29: ("strike",), 54: ("frame", "encircle"), 55: ("overline",)}
 
 
+_SGR_DEFINED_ELSEWHERE = set(range(10, 21)) | {26, 50, 58, 59} | set(range(60, 66)) | {73, 74, 75}
+
+
 def tokens(data):
     """Yield ('csi', params, final) | ('osc', body) | ('ctl', ch) | ('text', s)."""
     pos = 0
@@ -133,8 +136,12 @@ class Pen:
                     self.fg = v
                 else:
                     self.bg = v
+            elif c in _SGR_DEFINED_ELSEWHERE:
+                raise TermError("SGR code %d in %r (defined by ECMA-48 / xterm, not modelled)" % (c, params))
             else:
-                raise TermError("SGR code %d in %r" % (c, params))
+                # no terminal gives this number a meaning (e.g. 98, 108: "bright colour 8"):
+                # the stream is not interpretable as the styling it was meant to carry
+                raise TermMalformed("SGR code %d in %r is not a defined rendition" % (c, params))
             i += 1
 
 
